@@ -1,5 +1,6 @@
 import SuppModel.Props.C11
 #print axioms SuppModel.Props.C11.C11_found
+#print axioms SuppModel.Props.C11.C11_lines_ok
 #print axioms SuppModel.Props.C11.C11_sites_ok
 #print axioms SuppModel.Props.C11.C11_site
 #print axioms SuppModel.Props.C11.C11_found_iff
